@@ -52,8 +52,20 @@ Definition Data (sess : list N) (a : assoc) : Prop :=
 Definition AInv (sess : list N) (a : assoc) : Prop :=
   fn_ok a RRd /\ fn_ok a RSel /\ fn_ok a RHb /\ fn_ok a RFst /\ Data sess a /\ cclosed (a_tmo a) = false.
 
+(* bookkeeping for "forgotten": what one step of an association thread does to pConnDone and pConns, and whether
+   the association has reported its address (rep) *)
+Definition at_pc (a : assoc) (r : role) (f : fname) (p : nat) : bool :=
+  fname_eqb (t_fn (get_thr a r)) f && Nat.eqb (t_pc (get_thr a r)) p.
+Definition rep (a : assoc) : bool :=
+  match a_once a with ODone => true | ORun r0 => Nat.leb 6 (t_pc (get_thr a r0)) | ONew => false end.
+Definition delta (me : N) (r : role) (a : assoc) (nd nd' : node) (a2 : assoc) : Prop :=
+  cbuf (n_pcd nd') = (if at_pc a r FDo 5 then cbuf (n_pcd nd) ++ [me] else cbuf (n_pcd nd))
+  /\ n_map nd' = (if at_pc a r FFirst 2 then me :: remove_all me (n_map nd) else n_map nd)
+  /\ rep a2 = (rep a || at_pc a r FDo 5)
+  /\ (t_st (a_fst a) = TFinished -> t_st (a_fst a2) = TFinished).
+
 Ltac finish_inv :=
-  unfold AInv, fn_ok, Data, Body in *; cbn in *;
+  unfold AInv, fn_ok, Data, Body, delta, rep, at_pc in *; cbn in *;
   repeat match goal with
          | H : _ /\ _ |- _ => destruct H
          | H : exists _, _ |- _ => destruct H
@@ -61,7 +73,16 @@ Ltac finish_inv :=
          end; subst;
   repeat split; try tauto; try congruence;
   try (left; split; congruence); try (right; split; congruence);
+  try (rewrite ?orb_false_r, ?orb_true_r; reflexivity);
   try solve [intuition (try discriminate; try congruence)].
+
+Ltac close_rest :=
+  try rewrite remove_first_head;
+  repeat match goal with |- context [is_nil ?s] => destruct s as [|? ?]; cbn end;
+  try tauto; try reflexivity;
+  try (eexists _, _; repeat split; eauto; fail);
+  try (eexists _, _; rewrite <- app_assoc; cbn; repeat split; eauto; fail);
+  try (eexists _, _, _; repeat split; eauto; fail).
 
 (* the thread T (with fn_ok hypothesis HT) is inside doShutdown and takes a step *)
 Ltac do_script T HT :=
@@ -76,17 +97,7 @@ Ltac do_script T HT :=
     unfold thread_step in H; cbn in H; destruct rst; try discriminate H;
     do 8 (try destruct rpc as [|rpc]); try (exfalso; assumption); cbn in H;
     unfold ch_close, ch_send, ch_cancel in H;
-    [ inv_ok; finish_inv
-    | inv_ok; finish_inv
-    | inv_ok; finish_inv;
-      match goal with |- context [is_nil ?s] => destruct s as [|?x ?r]; cbn; [tauto | eexists _, _; repeat split; eauto] end
-    | inv_ok; finish_inv; eexists _, _, _; repeat split; eauto
-    | inv_ok; finish_inv; rewrite remove_first_head;
-      match goal with |- context [is_nil ?s] => destruct s as [|?y ?r]; cbn; [tauto|] end;
-      eexists _, _; rewrite <- app_assoc; cbn; repeat split; eauto
-    | inv_ok; finish_inv
-    | inv_ok; finish_inv
-    | inv_ok; finish_inv ]
+    inv_ok; finish_inv; close_rest
   end.
 
 (* the thread T runs its own function *)
